@@ -1,6 +1,7 @@
 import Ampy.Lemmas.Total
 import Ampy.Lemmas.Screen
 import Ampy.Lemmas.Run
+import Ampy.Lemmas.Domain
 /-!
 # C08 — valid input never crashes the chain; failures are AmpycloudError only  (partial)
 
@@ -56,5 +57,15 @@ theorem C08_layers_total {α} [DecidableEq α] (K : Kern) (P : PPrms α) (hK : K
     (hA3 : SelectedPopulated K P) (data : List (Hit α)) (gids : List Int) (groups : Table) :
     ∃ r, layerIds K P data gids groups = .ok r :=
   layerIds_total K P hK hP hA3 data gids groups
+
+/-- Kernel pre-conditions: the cascade only ever consults a third-party kernel inside its documented
+domain (clustering: at least 2 points; Gaussian mixture: at least 30 values and 1..3 components;
+`np.percentile`: a non-empty array; LOWESS: at least 2 points). Stated extensionally: two kernels that agree
+on those domains give the same run, so whatever a kernel would answer — or raise — outside its domain is
+never observed. -/
+theorem C08_kernel_domains {α} [DecidableEq α] (K K' : Kern) (P : PPrms α) (checked : List (Hit α))
+    (hA : KernAgree K K') (hK : KernOK K P.basePerc) (hp : PtsOrderOK K) (hP : PrmsOK P) :
+    run K P checked = run K' P checked :=
+  run_agree K K' P checked hA hK hp hP
 
 end Ampy
